@@ -41,7 +41,7 @@ def run_scenario(sc):
     p = subprocess.run([lib.PY, os.path.join(lib.VERIF, "harness", "workers", "w_c10.py"), json.dumps(sc)],
                        env=lib.child_env(), capture_output=True, text=True, timeout=600)
     if p.returncode != 0:
-        return {"violations": ["worker crashed: " + p.stderr[-500:]], "trace": []}
+        raise RuntimeError("C10 worker crashed (harness error, not a verdict): " + p.stderr[-1500:])
     return json.loads(p.stdout.strip().splitlines()[-1])
 
 
